@@ -35,6 +35,7 @@ pub fn alphabet(keys: &[&str], len: usize) -> Vec<Op> {
 	ops.push(Op::RebuildFromVec);
 	ops.push(Op::CloneContinue);
 	ops.push(Op::CloneFromIntoFresh);
+	ops.push(Op::Canonicalize);
 	ops.push(Op::ExtendPairs(vec![keys[0].to_string(), keys[keys.len() - 1].to_string()]));
 	ops
 }
@@ -151,6 +152,7 @@ pub fn op_name(op: &Op) -> &'static str {
 		Op::CloneAndDropOriginalLater => "clone_then_modify_original",
 		Op::CloneFromIntoFresh => "clone_from_into_fresh",
 		Op::CloneFromIntoUsed => "clone_from_into_used",
+		Op::Canonicalize => "canonicalize",
 		Op::IntoIterRebuild => "into_iter",
 	}
 }
@@ -213,6 +215,7 @@ pub fn op_from_json(j: &serde_json::Value) -> Option<Op> {
 		"clone_then_modify_original" => Op::CloneAndDropOriginalLater,
 		"clone_from_into_fresh" => Op::CloneFromIntoFresh,
 		"clone_from_into_used" => Op::CloneFromIntoUsed,
+		"canonicalize" => Op::Canonicalize,
 		"into_iter" => Op::IntoIterRebuild,
 		_ => return None,
 	})
@@ -311,7 +314,14 @@ fn make_universe(rng: &mut Rng, n: usize) -> Vec<String> {
 			1 => format!("{:016}", i),            // exactly 16 bytes: inline capacity boundary
 			2 => format!("{:017}", i),            // 17 bytes: spilled
 			3 => format!("{:015}", i),            // 15 bytes
-			4 => format!("\u{e9}{}\u{1f600}", i), // multi-byte
+			4 => {
+				// multi-byte; U+E000.. and supplementary characters order differently in UTF-8 and UTF-16
+				if i % 2 == 0 {
+					format!("\u{e000}{}\u{1f600}", i)
+				} else {
+					format!("\u{1f600}{}\u{ff5e}", i)
+				}
+			}
 			_ => format!("a-rather-long-key-that-lives-on-the-heap-{}", i),
 		};
 		u.push(k);
@@ -347,7 +357,13 @@ pub fn random_op(rng: &mut Rng, universe: &[String], len: usize, shrink_bias: bo
 			63..=68 => Op::Remove(k, c),
 			69..=76 => Op::RemoveAt(if len == 0 { 0 } else { rng.below(len + 2) }),
 			77..=79 => Op::RemoveUnique(k),
-			80 => Op::Sort,
+			80 => {
+				if rng.chance(1, 2) {
+					Op::Sort
+				} else {
+					Op::Canonicalize
+				}
+			}
 			81 => Op::RebuildFromVec,
 			82 => Op::RebuildFromIterEntries,
 			83 => Op::RebuildFromIterPairs,
@@ -532,7 +548,7 @@ pub fn run(cfg: &Config) -> i32 {
 
 	if !cfg.san {
 		static K2: [&str; 2] = ["a", "b"];
-		static K3: [&str; 3] = ["a", "b", "c"];
+		static K3: [&str; 3] = ["a", "\u{ff5e}", "\u{1f600}"];
 		static K1: [&str; 1] = ["k"];
 		let (r, st, sh) = exhaustive(cfg, &K2, if thorough { 5 } else { 4 });
 		total.count("exhaustive_histories_2_keys", r.evaluations);
